@@ -220,6 +220,7 @@ def run(ctx):
         r["failures"].append("fact extraction from local.rs/opendal.rs/backend.rs/id.rs failed: " + err)
     ctx.level = "proof"
     cov["trusted_base"] += [
+        "opendal layers Retry/Throttle/ConcurrentLimit/Logging pass every request and answer through unchanged (fact about opendal; the list of layers is regenerated and checked by opendal_layers_passthrough)",
         "props/C20/extract.py (directory names, temp suffix, data sub-directory rule, id length, order of the write steps, shapes of list/read/remove in local.rs and opendal.rs)",
         "POSIX file system as a finite map path -> bytes with atomic rename and implicit directories (hypothesis of the model; fsync/durability not modelled)",
         "opendal runtime (fs and memory services), walkdir, std::fs, crate hex: observed through the correspondence, not proved"]
